@@ -133,6 +133,34 @@ def gen_case(r, cid, tier):
     return spec, lines
 
 
+def matrix_cases(r):
+    """dynamic construction from a full tensor (so that children in EARLIER dimensions already exist) under limits that differ between the
+    dimensions, several candidate rounds with everything delivered: every (family, limits) pair, not left to chance"""
+    OBS = "dump g meta pidx nidx tensors"
+    out = []
+    lims = {2: [[3, 1], [2, 1], [1, 3], [2, 0], [0, 2], [-1, 1], [1, -1]], 3: [[3, 1, 2], [2, 0, 1], [1, 2, 3], [3, 2, 1], [-1, 1, 0]]}
+    k = 0
+    for fam, rule in (("global", "clenshaw-curtis"), ("global", "leja"), ("sequence", "rleja"), ("sequence", "min-lebesgue"), ("fourier", "")):
+        for d in (2, 3):
+            for L in lims[d]:
+                cid = "M%d" % k
+                k += 1
+                spec = {"family": fam, "dims": d, "outs": 1, "rule": rule, "type": "tensor", "depth": 1, "aw": [], "ll": []}
+                lines = ["case " + cid]
+                if fam == "global":
+                    lines.append("numpoints %s 9" % rule)
+                lines += [gl.make_cmd(spec), "#eff ", OBS, "load g smooth", OBS, "begin g"]
+                ty = r.choice(["level", "iptotal", "iphyperbolic"])
+                first = True
+                for _ in range(3):
+                    c = "cand g aw %s aw: %s%s" % (ty, " ".join(["1"] * d), gl.kv("ll:", L) if first else "")
+                    first = False
+                    lines += [c, "#eff " + " ".join(map(str, L)), OBS, "deliver g smooth idx: %s" % " ".join(map(str, range(12))), OBS]
+                lines += ["finish g", OBS]
+                out.append((cid, spec, lines))
+    return out
+
+
 def run(res, tier, seed, replay_script=None):
     props = vlib.coq_props(PID)
     vlib.proof_coverage(res, PID, props, "cd coq && make Props/Properties_C08.vo && coqc -Q . TV Props/Properties_C08.v", TRUSTED)
@@ -205,7 +233,7 @@ def run(res, tier, seed, replay_script=None):
         if mk[1] in ("global", "sequence"):
             specs[cid]["rule"] = mk[7]
     else:
-        for cid, spec, ls in corpus:
+        for cid, spec, ls in corpus + matrix_cases(r):
             specs[cid], scripts[cid] = spec, ls
         for i in range(n):
             cid = "L%d" % i
